@@ -29,7 +29,7 @@ SPEC = docsweep.Spec(
     rule=("docgen packages x all 4 option settings compared pairwise on /repo's values (structure across html; "
           "cells across duplicate_merged_cells; image folder in thorough); non-trivial = has merged cells or formatting; "
           "distinct = package bytes"),
-    knobs={"merged_cells": 0.7, "tables": 0.45, "links": 0.35, "images": 0.35, "image_same_basename": 0.15},
+    knobs={"merged_cells": 0.7, "tables": 0.45, "links": 0.35, "images": 0.35, "image_same_basename": 0.15, "grid_gaps": 0.35},
     edge=["textbox_in_link"],
     project=project,
     oracle=oracle,
